@@ -9,7 +9,7 @@ registers of the AXI converters obey the stream stability rule (registered only 
 data path has one cycle of latency, combinational otherwise).
 Not decided: the address sequence itself, len/size arithmetic, byte order through the stride converters."""
 import ast
-from ..core import AnalysisError, norm
+from ..core import AnalysisError, norm, const_fold
 from .. import boolx as B
 from .. import q
 from ..rules_stream import fx_of, fail_closed, prio, short, s5_omit, _lit_set
@@ -45,11 +45,43 @@ def run(ctx):
              min_sites=26)
     ctx.rule("U3", "converter side-band (resp/id/user/dest): registered only on accepted beats where the data path has latency "
                    "1, combinational where it has none", min_sites=14)
+    ctx.rule("U4", "Burst2Beat register widths cover the AXI-legal range: beat_count >= the widest `len` field of ax_description; "
+                   "beat_size holds 1 << 7 (1024-bit beats); beat_offset is signed with >= 12 magnitude bits (a burst stays inside a "
+                   "4KB page, AXI A3.4.1) ; beat_wrap holds 15 << 7 (WRAP bursts have at most 16 beats)", min_sites=5)
     ctx.rule("PRIO", "no dead driver", min_sites=1)
 
     # ================================================================ U1
     fx = fx_of(ctx, AF, "AXIBurst2Beat")
     fail_closed(ctx, fx, "AXIBurst2Beat")
+    # ---- U4 widths
+    axd = ctx.mod(AF).func("ax_description")
+    lenw = None
+    for n in ast.walk(axd):
+        if isinstance(n, ast.Assign) and norm(n.targets[0]) == "len_width" and isinstance(n.value, ast.Subscript) and isinstance(n.value.value, ast.Dict):
+            try:
+                lenw = max(const_fold(n.value.value).values())
+            except ValueError:
+                pass
+    ctx.ob("U4", AF, "ax_description", "len field widths are literals", lenw is not None, "len_width is no longer a literal table", axd)
+
+    def width(reg):
+        d = fx.decl.get(reg)
+        if not d or d[0] != "Signal" or not d[1].args:
+            return None
+        try:
+            v = const_fold(d[1].args[0])
+        except ValueError:
+            return None
+        if isinstance(v, tuple) and len(v) == 2:
+            return int(v[0]), bool(v[1])
+        return (int(v), False) if isinstance(v, int) else None
+    NEED = [("beat_count", lenw or 8, False, f"counts up to len ({lenw} bits)"), ("beat_size", 8, False, "holds 1 << size, size <= 7"),
+            ("beat_offset", 13, True, "byte offsets 0..4095 inside a 4KB page, negative after a WRAP"), ("beat_wrap", 11, False, "len << size, len <= 15 for WRAP")]
+    for reg, bits, signed, why in NEED:
+        w = width(reg)
+        ok = w is not None and w[0] >= bits and (w[1] or not signed)
+        ctx.ob("U4", AF, "AXIBurst2Beat", f"{reg}: {'signed, ' if signed else ''}>= {bits} bits", ok,
+               "" if ok else f"`{reg}` is declared {w}: {why}; a legal burst overflows it and the beat addresses/count wrap", fx.decl.get(reg, (0, 0))[1] or 0)
     prio(ctx, "PRIO", fx, "AXIBurst2Beat")
     H = B.from_expr("ax_beat.valid & ax_beat.ready")
     for reg in ("beat_count", "beat_offset"):
